@@ -467,3 +467,94 @@ impl Check for Blocks {
         r
     }
 }
+
+/* ------------------------------ contributions in nested positions ------------------------------ */
+
+/// A `that` contribution belongs to its nearest enclosing `begin` block wherever it is written
+/// inside that block: in the tail chain, or inside a thunk, a function body, a `do` tail or a match
+/// arm of another item or of the body. Three contributions in a dependency chain (type alias <-
+/// value <- value), each written in every one of six slots, in both relative orders within a slot:
+/// all programs must agree with the canonical tail-chain program.
+pub struct NestedSlots {
+    cases: Vec<([usize; 3], bool)>,
+}
+const SLOTS: [&str; 6] = ["tail-first", "tail-last", "in-thunk", "in-fn-body", "in-do-tail", "in-match-arm"];
+impl NestedSlots {
+    pub fn new() -> Self {
+        let mut cases = vec![];
+        for a in 0..SLOTS.len() {
+            for b in 0..SLOTS.len() {
+                for c in 0..SLOTS.len() {
+                    for rev in [false, true] {
+                        // the order inside a slot only matters when two contributions share it
+                        if rev && a != b && b != c && a != c {
+                            continue;
+                        }
+                        cases.push(([a, b, c], rev));
+                    }
+                }
+            }
+        }
+        NestedSlots { cases }
+    }
+    fn text(case: &([usize; 3], bool)) -> String {
+        let (slots, rev) = case;
+        let contribs = ["let T = Int64 that", "let x : T = 7 that", "let y : T = x that"];
+        let fill = |slot: usize| -> String {
+            let mut items: Vec<&str> = (0..3).filter(|i| slots[*i] == slot).map(|i| contribs[i]).collect();
+            if *rev {
+                items.reverse();
+            }
+            items.iter().map(|s| format!("{s} ")).collect::<String>()
+        };
+        format!(
+            "begin\n  let Ret = @(intrinsic(ret)) that\n  let Int64 = @(intrinsic(i64)) that\n  let Thk = @(intrinsic(thk)) that\n  {}\n  let g = {{ {}ret 0 }} that\n  let h = {{ fn (a : Int64) => {}ret a }} that\n  {}\n  do q <- ! h 1;\n  {}\n  match (q, 2)\n  | (m, n) => {}do z <- ! g; ret (x, y, m, z)\n  end\nend\n",
+            fill(0),
+            fill(2),
+            fill(3),
+            fill(1),
+            fill(4),
+            fill(5)
+        )
+    }
+}
+impl Check for NestedSlots {
+    fn property(&self) -> &'static str {
+        "C08"
+    }
+    fn name(&self) -> String {
+        "c08-nested-slots".into()
+    }
+    fn len(&self) -> usize {
+        self.cases.len()
+    }
+    fn describe(&self, i: usize) -> String {
+        let (s, rev) = &self.cases[i];
+        format!("alias in {}, first value in {}, second value in {}{}\n{}", SLOTS[s[0]], SLOTS[s[1]], SLOTS[s[2]], if *rev { " (reversed inside a slot)" } else { "" }, Self::text(&self.cases[i]))
+    }
+    fn rule(&self) -> String {
+        format!("{} programs: one block whose three chained contributions (`let T = Int64`, `let x : T = 7`, `let y : T = x`) are each written in one of 6 places of the block (head of the tail chain, end of the tail chain, inside the thunk of another item, inside a function body of another item, in a do tail of the body, in a match arm of the body), every assignment, both orders inside a shared place; oracle: each program is accepted and returns (7, 7, 1, 0), exactly like the canonical tail-chain text; non-trivial = every program", self.cases.len())
+    }
+    fn run(&mut self, i: usize) -> CaseResult {
+        let scratch = Scratch::new("c08n");
+        let text = Self::text(&self.cases[i]);
+        let path = scratch.write("main.zydeco", &text);
+        let mut r = CaseResult::ok("placement").key(i as u64).nontrivial(true);
+        match guarded(|| {
+            let s = Subject::analyze(&path);
+            let v = s.verdict();
+            let run = if v.accepted() { Some(s.run(b"", &[], 2000)) } else { None };
+            (v, run)
+        }) {
+            | Err(p) => r = r.violation(format!("front end panicked at {}", crate::front::short_loc(&p.loc)), format!("{:?}\n{text}", p)),
+            | Ok((v, None)) => {
+                r = r.violation(format!("a block is rejected when a contribution is written {}", self.describe(i).lines().next().unwrap_or("")), format!("{:?}\n{text}", v));
+            }
+            | Ok((_, Some(run))) => match &run.end {
+                | RunEnd::Ret(got) if got == "(Integer(7),Integer(7),Integer(1),Integer(0))" => r = r.count("agreements", 1),
+                | other => r = r.violation("a block computes a different result when a contribution is written in a nested position".to_string(), format!("{:?}\n{text}", other)),
+            },
+        }
+        r
+    }
+}
